@@ -27,6 +27,13 @@ func c07E2E(w *W) {
 	w.SetShape("surveyor_ctxs", nq)
 	w.SetShape("respondents", nresp)
 	w.SetShape("respondent_ctxs", nrc)
+	// one respondent's connection is reset while surveys are in flight (the
+	// survey message is shared between the per-respondent send queues)
+	fault := tran != "inproc" && nresp >= 2 && w.Choose(simrt.SShape, 3) == 0
+	faultRound := w.Choose(simrt.SShape, nround)
+	faultYields := w.Choose(simrt.SShape, 80)
+	faultDone := false
+	w.SetShape("reset", fault)
 	w.UseNet(NetCfg{Segment: w.Choose(simrt.SShape, 2) == 0, BufCap: []int{0, 64, 300}[w.Choose(simrt.SShape, 3)]})
 	sv := w.Sock("surveyor")
 	defer sv.Close()
@@ -108,6 +115,39 @@ func c07E2E(w *W) {
 			sizes[i] = append(sizes[i], []int{0, 1, 10, 60, 200, 2000}[w.Choose(simrt.SProg, 6)])
 		}
 	}
+	need := nresp
+	if fault {
+		need = nresp - 1 // the respondent that was cut off may miss surveys
+	}
+	// called by a surveying context right after its Send returned: the survey
+	// sits in the per-respondent queues / is being written
+	injectFault := func(k int) {
+		if !fault || faultDone || k != faultRound {
+			return
+		}
+		faultDone = true
+		for y := faultYields; y > 0; y-- {
+			simrt.Yield()
+		}
+		var open []*NetConn
+		for _, c := range curNet.conns {
+			if !c.IsClosed() {
+				open = append(open, c)
+			}
+		}
+		if len(open) > 0 {
+			c := open[faultYields%len(open)]
+			w.Op("connection %s -> %s is reset", c.local, c.remote)
+			w.Fault("reset")
+			c.Reset()
+		}
+		// pool pressure: what was wrongly released is handed out again
+		for i := 0; i < 4; i++ {
+			x := mangos.NewMessage(64)
+			x.Body = append(x.Body, "scratch-scratch-scratch"...)
+			x.Free()
+		}
+	}
 	var calls []*Call
 	for _, q := range qcs {
 		q := q
@@ -130,6 +170,7 @@ func c07E2E(w *W) {
 				if err := send(body); err != nil {
 					return n, fmt.Errorf("Send: %v", err)
 				}
+				injectFault(k)
 				from := map[string]bool{}
 				for {
 					got, err := recv()
@@ -153,7 +194,7 @@ func c07E2E(w *W) {
 				}
 				// every respondent is connected, answers within ~1ms, nothing is
 				// lost (no faults, queues deeper than the run): all must be in
-				if len(from) != nresp {
+				if len(from) < need {
 					return n, fmt.Errorf("context %d survey %q (survey time %v): %d of %d connected respondents' responses were collected (%v)", q.idx, clip(body), T, len(from), nresp, from)
 				}
 			}
